@@ -49,6 +49,10 @@ func (e *Env) emissionsOf(l *facts.Level, lf *ir.Leaf) (list []emission, builder
 			pieces = append([]*ir.Term{x.Args[1].Args[0]}, pieces...)
 			x = x.Args[0]
 		}
+		if x.Op == "list" {
+			// the slice the elements are appended to starts as a literal with elements of its own ([]string{lower})
+			pieces = append(append([]*ir.Term{}, x.Args...), pieces...)
+		}
 		if x.Op != ir.OAlloc && !(x.Op == ir.OSlice) && x.Op != ir.OAddr {
 			// the initial []string{} literal
 			if !(x.Op == ir.OConst) {
